@@ -2776,37 +2776,56 @@ func ruleSchemaExtForm(c *Ctx) []Obligation {
 		n++
 		con := fmt.Sprintf("build: extension hand-over #%d is made for a keyword of the form prefix:name", n)
 		exact, loose := false, ""
+		nonEmpty := 0
 		colon := func(v ssa.Value) bool { s, isS := constString(v); return isS && s == ":" }
 		for _, g := range guardsAt(call.Block()) {
-			switch x := g.Cond.(type) {
-			case *ssa.BinOp:
-				k, okk := constInt(x.Y)
-				if !okk || x.Op != token.EQL || !g.Branch {
-					continue
-				}
-				if ln, isLn := x.X.(*ssa.Call); isLn && isLenOf(ln) {
-					if sp, isSp := ln.Call.Args[0].(*ssa.Call); isSp && calleeIs(sp, "strings", "Split") && colon(sp.Call.Args[1]) && k == 2 {
-						exact = true
+			if !g.Branch {
+				continue
+			}
+			if u, isU := g.Cond.(*ssa.UnOp); isU && u.Op == token.NOT {
+				continue
+			}
+			// the test as written, or inside a private predicate it calls (backSliceCond follows its result and
+			// the conditions that select it)
+			backSliceCond(g.Cond, func(v ssa.Value) {
+				switch x := v.(type) {
+				case *ssa.BinOp:
+					if k, okk := constInt(x.Y); okk && x.Op == token.EQL {
+						if ln, isLn := x.X.(*ssa.Call); isLn && isLenOf(ln) {
+							if sp, isSp := ln.Call.Args[0].(*ssa.Call); isSp && calleeIs(sp, "strings", "Split") && colon(sp.Call.Args[1]) && k == 2 {
+								exact = true
+							}
+						}
+						if cnt, isCnt := x.X.(*ssa.Call); isCnt && calleeIs(cnt, "strings", "Count") && colon(cnt.Call.Args[1]) && k == 1 {
+							exact = true
+						}
+					}
+					if sv, isS := constString(x.Y); isS && sv == "" && x.Op == token.NEQ {
+						// a piece of the split keyword is not empty
+						if ld, isL := x.X.(*ssa.UnOp); isL {
+							if ia, isIA := ld.X.(*ssa.IndexAddr); isIA {
+								if sp, isSp := ia.X.(*ssa.Call); isSp && calleeIs(sp, "strings", "Split") {
+									nonEmpty++
+								}
+							}
+						}
+					}
+				case *ssa.Call:
+					if calleeIs(x, "strings", "Contains") || calleeIs(x, "strings", "ContainsRune") {
+						loose = c.InstrPos(x)
 					}
 				}
-				if cnt, isCnt := x.X.(*ssa.Call); isCnt && calleeIs(cnt, "strings", "Count") && colon(cnt.Call.Args[1]) && k == 1 {
-					exact = true
-				}
-			case *ssa.Call:
-				if (calleeIs(x, "strings", "Contains") || calleeIs(x, "strings", "ContainsRune")) && g.Branch {
-					loose = c.InstrPos(x)
-				}
-			}
+			})
 		}
 		switch {
+		case exact && nonEmpty >= 2:
+			obs = append(obs, ok(R, con, c.InstrPos(call), "under `exactly one colon, with something on both sides`"))
 		case exact:
-			obs = append(obs, ok(R, con, c.InstrPos(call), "under `exactly one colon`"))
+			obs = append(obs, bad(R, con, c.InstrPos(call), "the arm is entered for a keyword with one colon and nothing before or after it: `:foo x;` and `foo: x;` are filed as extensions although they have no prefix or no name"))
 		case loose != "":
 			obs = append(obs, bad(R, con, c.InstrPos(call), "the arm is entered for any keyword that merely contains a colon ("+loose+"): `a:b:c` or `ex::ext` is filed as an extension instead of failing the build as an unknown statement"))
 		default:
-			o := ok(R, con, c.InstrPos(call), "the form test has a shape this rule does not know; not decided")
-			o.Trivial = true
-			obs = append(obs, o)
+			obs = append(obs, undecided(R, con, c.InstrPos(call), "the form test has a shape this rule does not know"))
 		}
 	})
 	if n == 0 {
